@@ -577,41 +577,47 @@ Fixpoint remove (fuel : nat) (st : store) (n : node) (p : path) : node * option 
 
 (** [save]: children first (ascending; Go runs them concurrently, the store is content addressed),
     then marshal, store, drop the forks.  [log] collects every payload handed to the saver. *)
-Fixpoint save (fuel : nat) (st : store) (log : list (list N)) (n : node)
-  : node * store * list (list N) * option err :=
+Definition save_res := (node * store * list (list N) * option err)%type.
+
+(** the loop over the forks, [sv] = the recursive call; stops at the first error *)
+Fixpoint save_forks (sv : store -> list (list N) -> node -> save_res) (fs : forks_t)
+  (st : store) (log : list (list N)) : forks_t * store * list (list N) * option err :=
+  match fs with
+  | [] => ([], st, log, None)
+  | (k, (prefix, c)) :: fs' =>
+      let '(c', st1, log1, e) := sv st log c in
+      match e with
+      | Some x => ((k, (prefix, c')) :: fs', st1, log1, Some x)
+      | None =>
+          let '(fs2, st2, log2, e2) := save_forks sv fs' st1 log1 in
+          ((k, (prefix, c')) :: fs2, st2, log2, e2)
+      end
+  end.
+
+(** the tail of [save] once the children are saved: MarshalBinary, Save, [n.forks = nil] *)
+Definition save_self (st : store) (log : list (list N)) (n1 : node) : save_res :=
+  match marshal n1 with
+  | (n2, Err x) => (n2, st, log, Some x)
+  | (n2, Ok bytes) =>
+      let r := addr bytes in
+      (set_forks (set_ref n2 (Some r)) None, st_put st r bytes, log ++ [bytes], None)
+  end.
+
+Fixpoint save (fuel : nat) (st : store) (log : list (list N)) (n : node) : save_res :=
   match fuel with
   | O => (n, st, log, Some EFuel)
   | S fuel' =>
       match n_ref n with
       | Some _ => (n, st, log, None)
       | None =>
-          let save_forks :=
-            fix go (fs : forks_t) (st : store) (log : list (list N)) : forks_t * store * list (list N) * option err :=
-              match fs with
-              | [] => ([], st, log, None)
-              | (k, (prefix, c)) :: fs' =>
-                  let '(c', st1, log1, e) := save fuel' st log c in
-                  match e with
-                  | Some x => ((k, (prefix, c')) :: fs', st1, log1, Some x)
-                  | None =>
-                      let '(fs2, st2, log2, e2) := go fs' st1 log1 in
-                      ((k, (prefix, c')) :: fs2, st2, log2, e2)
-                  end
-              end in
-          let '(fso, st1, log1, e) :=
-            match n_forks n with
-            | None => (None, st, log, None)
-            | Some fs => let '(fs', a, b, c) := save_forks fs st log in (Some fs', a, b, c)
-            end in
-          let n1 := set_forks n fso in
-          match e with
-          | Some x => (n1, st1, log1, Some x)
-          | None =>
-              match marshal n1 with
-              | (n2, Err x) => (n2, st1, log1, Some x)
-              | (n2, Ok bytes) =>
-                  let r := addr bytes in
-                  (set_forks (set_ref n2 (Some r)) None, st_put st1 r bytes, log1 ++ [bytes], None)
+          match n_forks n with
+          | None => save_self st log n            (* ranging over a nil map: no children *)
+          | Some fs =>
+              let '(fs', st1, log1, e) := save_forks (save fuel') fs st log in
+              let n1 := set_forks n (Some fs') in
+              match e with
+              | Some x => (n1, st1, log1, Some x)
+              | None => save_self st1 log1 n1
               end
           end
       end
